@@ -219,7 +219,7 @@ def plan(tier, seed):
     pl.finite = [("C13-U/uniform-loops", lambda: uniform.check(LOOPS))]
     from vfkit import lean as _lean
     pl.finite.append(("A5/Lean re-check of the lifting lemmas for operand runs", _lean.lemma_check))
-    n = 5 if tier == "quick" else 6
+    n = 5 if tier == "quick" else 7
 
     def roundtrip():
         return bounded.run_native("c13_roundtrip", {"max_tokens": n, "seed": seed,
